@@ -473,29 +473,34 @@ func (cx *c14Ctx) key(q c14Q, got string) (key string, specific bool) {
 			return "Row(v != null)", false
 		}
 		p := q.a
-		switch q.op {
-		case "<", "<=":
-			if p >= cx.bdMin && p > cx.bdMax {
-				if q.op == "<" && p <= cx.cf.max {
-					return c14KLTAboveDepth, true
+		// A known root cause is only named when the answer is exactly what that defect produces
+		// (cx.implRange replays the executor/fragment decision path including the known defects);
+		// any other wrong answer on the same query shape gets the generic key and is reported.
+		if got == cx.implRange(q.op, p) {
+			switch q.op {
+			case "<", "<=":
+				if p >= cx.bdMin && p > cx.bdMax {
+					if q.op == "<" && p <= cx.cf.max {
+						return c14KLTAboveDepth, true
+					}
+				} else if p >= cx.bdMin {
+					bp := p - cx.base
+					if q.op == "<" && bp == -1 {
+						return c14KStrictMinus1, true
+					}
+					if q.op == "<" && bp == 0 {
+						return c14KLTZero, true
+					}
 				}
-			} else if p >= cx.bdMin {
-				bp := p - cx.base
-				if q.op == "<" && bp == -1 {
-					return c14KStrictMinus1, true
-				}
-				if q.op == "<" && bp == 0 {
-					return c14KLTZero, true
-				}
-			}
-		case ">", ">=":
-			if p <= cx.bdMax && p <= cx.bdMin {
-				if p >= cx.cf.min {
-					return c14KGTBelowDepth, true
-				}
-			} else if p <= cx.bdMax {
-				if q.op == ">" && p-cx.base == -1 {
-					return c14KStrictMinus1, true
+			case ">", ">=":
+				if p <= cx.bdMax && p <= cx.bdMin {
+					if p >= cx.cf.min {
+						return c14KGTBelowDepth, true
+					}
+				} else if p <= cx.bdMax {
+					if q.op == ">" && p-cx.base == -1 {
+						return c14KStrictMinus1, true
+					}
 				}
 			}
 		}
@@ -569,6 +574,76 @@ func (cx *c14Ctx) sumDefect(q c14Q, zeroWhenEmpty bool) string {
 		return "val=0 n=0"
 	}
 	return fmt.Sprintf("val=%d n=%d", sum+n*cx.base, n)
+}
+
+// implRange replays, on the model, what executor.executeRowBSIGroupShard + bsiGroup.baseValue +
+// fragment.rangeLT/rangeGT compute for a single comparison INCLUDING the known defects (strict
+// comparison with base predicate -1 on the non-negative branch, strict < 0 returning the zeros,
+// base value clamping without operator change, bit depth 0). Classification only.
+func (cx *c14Ctx) implRange(op string, p int64) string {
+	sel := func(pred func(bv int64) bool) string {
+		return c14Cols(cx.m.cols(func(v int64) bool { return pred(v - cx.base) }, nil))
+	}
+	all := func(int64) bool { return true }
+	none := func(int64) bool { return false }
+	abs := func(x int64) int64 {
+		if x < 0 {
+			return -x
+		}
+		return x
+	}
+	eq := op == "<=" || op == ">="
+	switch op {
+	case "<", "<=":
+		if p < cx.bdMin {
+			return sel(none)
+		}
+		if (op == "<" && p > cx.cf.max) || (op == "<=" && p >= cx.cf.max) {
+			return sel(all)
+		}
+		bp := p - cx.base
+		if p > cx.bdMax {
+			bp = cx.bdMax - cx.base
+		}
+		up := abs(bp)
+		if (bp >= 0 && eq) || (bp >= -1 && !eq) {
+			return sel(func(bv int64) bool {
+				if bv < 0 {
+					return true
+				}
+				if up == 0 && !eq {
+					return bv == 0
+				}
+				return bv < up || (eq && bv == up)
+			})
+		}
+		return sel(func(bv int64) bool { return bv < 0 && (-bv > up || (eq && -bv == up)) })
+	case ">", ">=":
+		if p > cx.bdMax {
+			return sel(none)
+		}
+		if (op == ">" && p < cx.cf.min) || (op == ">=" && p <= cx.cf.min) {
+			return sel(all)
+		}
+		bp := int64(0)
+		if p > cx.bdMin {
+			bp = p - cx.base
+		}
+		up := abs(bp)
+		if (bp >= 0 && eq) || (bp >= -1 && !eq) {
+			return sel(func(bv int64) bool {
+				if bv < 0 {
+					return false
+				}
+				if cx.depth == 0 {
+					return true
+				}
+				return bv > up || (eq && bv == up)
+			})
+		}
+		return sel(func(bv int64) bool { return bv >= 0 || -bv < up || (eq && -bv == up) })
+	}
+	return "?"
 }
 
 // ---------------------------------------------------------------------------------------------
@@ -1108,6 +1183,115 @@ func c14Part2(c *vx.Check, depths []uint) {
 	}, nil)
 }
 
+// part 2b: single-column writes between reads. Part 2 overwrites every column at once, which drops
+// every cached bit-plane row as a side effect (some column always clears a bit of it); here each
+// write touches ONE column, right after a read has filled the row caches, and is followed by a
+// read: set-only and clear-only bit changes of every (v1 -> v2) pair and of a clear are observed.
+func c14Part2b(c *vx.Check, depths []uint) {
+	type job struct {
+		cf  c14Cfg
+		how int
+	}
+	var jobs []job
+	for _, d := range depths {
+		M := int64(1)<<d - 1
+		for _, preset := range []bool{false, true} {
+			for how := 0; how < 2; how++ {
+				jobs = append(jobs, job{c14Cfg{d: d, min: -M, max: M, preset: preset}, how})
+			}
+		}
+	}
+	c.Bound("part2b_cases", len(jobs))
+	c.ProcFor(c.NextRunLabel(), len(jobs), nil, func(_ []byte, i int, _ func([]byte)) {
+		if c.Expired() {
+			return
+		}
+		j := jobs[i]
+		e := c14GetEnv()
+		defer c14PutEnv(e)
+		index := e.newIndex(j.cf)
+		defer e.dropIndex(index)
+		m := c14NewModel()
+		vals := c14Range(j.cf.min, j.cf.max)
+		n := len(vals)
+		col := func(a, b int) uint64 {
+			k := uint64(a*(n+1) + b)
+			if (a+b)%2 == 0 {
+				return c14SW - 1 - k
+			}
+			return c14SW + k
+		}
+		var cols1 []uint64
+		var vs1 []int64
+		for a := 0; a < n; a++ {
+			for b := 0; b <= n; b++ {
+				cols1, vs1 = append(cols1, col(a, b)), append(vs1, vals[a])
+			}
+		}
+		names := []string{"Set", "ImportValue"}
+		desc := fmt.Sprintf("%v history: Set(all v1), then per column: read, %s(one column v1->v2 or clear), read", j.cf, names[j.how])
+		if err := c14WriteValues(e, index, m, cols1, vs1, c14WriteSet); err != nil {
+			c.Violate("write of an in-range value refused", desc, err.Error(), "<nil>")
+			return
+		}
+		pre := "history write,read," + names[j.how] + " overwrite,read: "
+		light := func() []c14Q {
+			var qs []c14Q
+			for _, x := range vals {
+				x := x
+				qs = append(qs, c14Q{pql: fmt.Sprintf("Row(v == %d)", x), kind: "range", op: "==", a: x,
+					want: c14Cols(m.cols(func(v int64) bool { return v == x }, nil))})
+			}
+			qs = append(qs, c14Q{pql: "Row(v != null)", kind: "range", op: "!=null", want: c14Cols(m.cols(func(int64) bool { return true }, nil))})
+			sum, sumOK, cnt, _, _, _, _ := m.agg(nil)
+			if sumOK && cnt > 0 {
+				qs = append(qs, c14Q{pql: "Sum(field=v)", kind: "sum", filter: "none", want: fmt.Sprintf("val=%d n=%d", sum, cnt)})
+			}
+			return qs
+		}
+		// the first read fills the caches
+		if c14CheckBattery(c, e, index, j.cf, m, light(), desc+" [first read]", "history write,read: ") > 0 {
+			return
+		}
+		steps := 0
+		for a := 0; a < n; a++ {
+			for b := 0; b <= n; b++ {
+				cl := col(a, b)
+				step := fmt.Sprintf(" [column %d: %d -> %d]", cl, vals[a], 0)
+				var err error
+				if b == n {
+					step = fmt.Sprintf(" [column %d: %d -> cleared]", cl, vals[a])
+					pre2 := "history write,read,ImportValue-clear of one column,read: "
+					err = c14ClearValues(e, index, m, []uint64{cl})
+					if err == nil && c14CheckBattery(c, e, index, j.cf, m, light(), desc+step, pre2) > 0 {
+						return
+					}
+				} else {
+					step = fmt.Sprintf(" [column %d: %d -> %d]", cl, vals[a], vals[b])
+					err = c14WriteValues(e, index, m, []uint64{cl}, []int64{vals[b]}, j.how)
+					if err == nil && c14CheckBattery(c, e, index, j.cf, m, light(), desc+step, pre) > 0 {
+						return
+					}
+				}
+				if err != nil {
+					c.Violate("overwrite with an in-range value refused", desc+step, err.Error(), "<nil>")
+					return
+				}
+				f := e.srv.holder.Field(index, "v")
+				v, ok, _ := f.Value(cl)
+				wv, wok := m.vals[cl]
+				if v != wv || ok != wok {
+					c.Violate(pre+"goapi Field.Value wrong", desc+step, fmt.Sprint(v, ok), fmt.Sprint(wv, wok))
+					return
+				}
+				steps++
+			}
+		}
+		c.Distinct(desc)
+		c.Sample(fmt.Sprintf("%s (%d single-column steps)", desc, steps))
+	}, nil)
+}
+
 func c14CheckGoAPIValues(c *vx.Check, e *c14Env, index string, m *c14Model, desc, pre string) {
 	f := e.srv.holder.Field(index, "v")
 	var cols []uint64
@@ -1246,6 +1430,10 @@ func TestVerif_C14(t *testing.T) {
 		hd = hd[:4]
 	}
 	c14Part2(c, hd)
+	if len(hd) > 3 {
+		hd = hd[:3]
+	}
+	c14Part2b(c, hd)
 	c14Part3(c)
 	c.Assume("single node, executor worker pool of 1; bit depths 1..max exhaustive over all values of the range, depths up to 63 through the boundary set {0,+-1,+-(2^k-1),+-2^k,+-(2^k+1),+-maxint64}")
 	if c.Finish() != 0 {
